@@ -2,7 +2,7 @@
    Only statements here; proofs are in proofs/SubstPins.v and proofs/SubstAccepts.v. *)
 From Coq Require Import PrimFloat.
 Require Import D42.Prelude D42.PyFloat D42.Value D42.Regex D42.Schema D42.Validate D42.Conforms
-               D42.FromNative D42.Substitute D42.Agree.
+               D42.FromNative D42.Substitute D42.Agree D42.ChoiceFree.
 Require Import D42P.ValidateSpec D42P.SubstPins D42P.SubstAccepts.
 
 (* Every value the substituted schema accepts carries the substituted data: for every
